@@ -257,6 +257,7 @@ func main() {
 	runAddresses()
 	runDateTimeTextUTC()
 	runHistories()
+	runRetype()
 
 	dt.wait()
 	runClockIndependence() // alone: it changes time.Local
@@ -274,6 +275,8 @@ func replay(kind string, c json.RawMessage) {
 	fmt.Printf("replaying kind=%s case=%s\n", kind, c)
 	before := R.Violations()
 	switch kind {
+	case "retype":
+		runRetype()
 	case "reflected":
 		fmt.Println("entry points found by reflection: re-running the family")
 		runReflected()
